@@ -12,6 +12,8 @@ use std::pin::Pin;
 impl FangAction for CtxFang {
     async fn fore<'a>(&'a self, req: &'a mut Request) -> Result<(), Response> {
         if let Some(v) = req.headers.get("X-Ctx").map(|s| s.to_string()) { req.context.set(Ctx(v)) }
+        // ... and, like a "real client address" middleware, overwrites the public field `ip` from a header of THIS request (`X-Set-Ip`)
+        if let Some(ip) = req.headers.get("X-Set-Ip").and_then(|s| s.parse::<std::net::IpAddr>().ok()) { req.ip = ip }
         Ok(())
     }
 }
@@ -116,9 +118,11 @@ fn session(t: &TestingOhkami, script: Vec<Vec<u8>>, eof: bool) -> Value {
     let mut out: Vec<String> = vec![];
     let mut req = Request::__verif_init();
     let mut req = unsafe { Pin::new_unchecked(&mut req) };
+    let peer = req.ip;
     let end = block_on_or_stall(&stalled, async {
         loop {
             req.as_mut().get_mut().__verif_clear();
+            req.ip = peer;          // (the mirror follows session/mod.rs: the connection's address is written back before each request)
             match req.as_mut().__verif_read(&mut conn).await {
                 Ok(Some(())) => {
                     let close = req.headers.Connection().is_some_and(|options| options.split(',').any(|option| option.trim().eq_ignore_ascii_case("close")));          // (the mirror follows session/mod.rs)
@@ -129,7 +133,7 @@ fn session(t: &TestingOhkami, script: Vec<Vec<u8>>, eof: bool) -> Value {
                     if close { break "closed_by_server" }
                 }
                 Ok(None) => break "none",
-                Err(res) => { let mut w = Vec::new(); res.__verif_send(&mut w).await; out.push(hex(&w)); }
+                Err(res) => { let mut w = Vec::new(); res.__verif_send(&mut w).await; out.push(hex(&w)); break "closed_by_server" }          // a refused request is answered and ends the session
             }
         }
     });
@@ -140,7 +144,100 @@ fn guarded(t: &TestingOhkami, script: Vec<Vec<u8>>, eof: bool) -> Value {
     match std::panic::catch_unwind(std::panic::AssertUnwindSafe(|| session(t, script, eof))) { Ok(v) => v, Err(e) => json!({"panic": panic_msg(e)}) }
 }
 
+/// Scenarios in REAL time, through the real `Session::manage` over loopback TCP (hook H6), in a child process started with
+/// `OHKAMI_KEEPALIVE_TIMEOUT=1` (the configuration is read once per process): what no scripted connection can show — the timers of the session loop.
+///   keepalive : three requests 0.6 s apart (each well inside the Keep-Alive timeout, the session older than it at the third)
+///   slow      : one request whose handler takes 1.4 s
+///   stream    : an event stream with 0.7 s between its three messages (C17: "at any pace")
+///   idle      : one request, then silence: the server ends the session after the timeout
+pub fn timed() -> Value {
+    use std::io::Read;
+    let exe = std::env::current_exe().unwrap();
+    let mut child = match std::process::Command::new(exe).arg("C05timed").env("OHKAMI_KEEPALIVE_TIMEOUT", "1")
+        .stdin(std::process::Stdio::null()).stdout(std::process::Stdio::piped()).stderr(std::process::Stdio::null()).spawn() {
+        Ok(c) => c, Err(e) => return json!({"panic": format!("harness: cannot start the timed child: {e}")}) };
+    let mut out = String::new();
+    let _ = child.stdout.take().unwrap().read_to_string(&mut out);
+    let _ = child.wait();
+    serde_json::from_str(out.trim()).unwrap_or_else(|_| json!({"panic": format!("the timed child died: {}", &out[..out.len().min(200)])}))
+}
+
+pub fn timed_child() -> ! {
+    use tokio::io::{AsyncReadExt, AsyncWriteExt};
+    use std::time::Duration;
+    use ohkami::sse::DataStream;
+    async fn root() -> &'static str { "root" }
+    async fn slow() -> &'static str { tokio::time::sleep(Duration::from_millis(1400)).await; "slow" }
+    async fn sse() -> DataStream {
+        DataStream::new(|mut s| async move {
+            s.send("a"); tokio::time::sleep(Duration::from_millis(700)).await;
+            s.send("b"); tokio::time::sleep(Duration::from_millis(700)).await;
+            s.send("c");
+        })
+    }
+    fn timed_app() -> Ohkami { Ohkami::new(("/".GET(root), "/slow".GET(slow), "/sse".GET(sse))) }
+    /// plays `steps` = (pause before writing in ms, bytes) on a fresh connection; collects what the server writes until it has been quiet for `quiet` ms
+    /// after the last step (or it closes); returns (bytes, closed by the server)
+    async fn play(steps: Vec<(u64, &'static [u8])>, quiet: u64) -> (Vec<u8>, bool) {
+        let listener = tokio::net::TcpListener::bind("127.0.0.1:0").await.expect("harness: bind");
+        let addr = listener.local_addr().unwrap();
+        let mut client = tokio::net::TcpStream::connect(addr).await.expect("harness: connect");
+        client.set_nodelay(true).ok();
+        let (server, _) = listener.accept().await.expect("harness: accept");
+        server.set_nodelay(true).ok();
+        let task = tokio::task::spawn_local(timed_app().__verif_session(server));
+        let mut all: Vec<u8> = Vec::new();
+        let mut buf = vec![0u8; 65536];
+        let mut closed = false;
+        let n = steps.len();
+        'outer: for (i, (pause, bytes)) in steps.into_iter().enumerate() {
+            // while pausing, keep reading (an answer may still be on its way)
+            let until = tokio::time::Instant::now() + Duration::from_millis(pause);
+            loop {
+                match tokio::time::timeout_at(until, client.read(&mut buf)).await {
+                    Ok(Ok(0)) | Ok(Err(_)) => { closed = true; break 'outer }
+                    Ok(Ok(k)) => all.extend_from_slice(&buf[..k]),
+                    Err(_) => break,
+                }
+            }
+            if client.write_all(bytes).await.is_err() { closed = true; break }
+            let _ = client.flush().await;
+            if i + 1 == n {
+                loop {
+                    match tokio::time::timeout(Duration::from_millis(quiet), client.read(&mut buf)).await {
+                        Ok(Ok(0)) | Ok(Err(_)) => { closed = true; break }
+                        Ok(Ok(k)) => all.extend_from_slice(&buf[..k]),
+                        Err(_) => break,
+                    }
+                }
+            }
+        }
+        task.abort();
+        (all, closed)
+    }
+    const GET: &[u8] = b"GET / HTTP/1.1\r\n\r\n";
+    let rt = rt();
+    let local = tokio::task::LocalSet::new();
+    let out = local.block_on(&rt, async move {
+        let (ka, slow, stream, idle) = tokio::join!(
+            play(vec![(0, GET), (600, GET), (600, GET)], 300),
+            play(vec![(0, b"GET /slow HTTP/1.1\r\n\r\n")], 1800),
+            play(vec![(0, b"GET /sse HTTP/1.1\r\n\r\n")], 1000),
+            play(vec![(0, GET)], 1600),
+        );
+        json!({"timed": {
+            "keepalive": {"all": hex(&ka.0), "closed_by_server": ka.1},
+            "slow": {"all": hex(&slow.0), "closed_by_server": slow.1},
+            "stream": {"all": hex(&stream.0), "closed_by_server": stream.1},
+            "idle": {"all": hex(&idle.0), "closed_by_server": idle.1},
+        }})
+    });
+    println!("{}", out);
+    std::process::exit(0)
+}
+
 pub fn run_case(c: &Value) -> Value {
+    if c.get("timed").is_some() { return timed() }
     pin_clock(PINNED_CLOCK);
     let t = app();
     let script: Vec<Vec<u8>> = c["script"].as_array().unwrap().iter().map(|s| unhex(s.as_str().unwrap())).collect();
